@@ -204,6 +204,54 @@ class PyClass:
         return out
 
 
+def canon_temps(tree: ast.Module) -> int:
+    """Canonical form used by every rule: a local that only carries a value into the very next statement is folded away -
+    `t = E; return t` -> `return E`, `t = E; <targets> = t` -> `<targets> = E` - when `t` has no other use in its function.  Both forms
+    evaluate E first and do nothing else in between, so this is behaviour-preserving; it makes the rules insensitive to whether the
+    author named an intermediate value.  Returns the number of folds."""
+    folds = 0
+    for fn in [n for n in ast.walk(tree) if isinstance(n, (ast.FunctionDef, ast.AsyncFunctionDef))]:
+        while True:
+            uses: dict[str, list[int]] = {}
+            for n in ast.walk(fn):
+                if isinstance(n, ast.Name):
+                    u = uses.setdefault(n.id, [0, 0])
+                    u[0 if isinstance(n.ctx, ast.Load) else 1] += 1
+                elif isinstance(n, (ast.Global, ast.Nonlocal)):
+                    for nm in n.names:
+                        uses.setdefault(nm, [0, 0])[1] += 5
+            done = False
+            for holder in ast.walk(fn):
+                for field in ("body", "orelse", "finalbody"):
+                    blk = getattr(holder, field, None)
+                    if not (isinstance(blk, list) and blk and isinstance(blk[0], ast.stmt)):
+                        continue
+                    for i in range(len(blk) - 1):
+                        a, b = blk[i], blk[i + 1]
+                        if not (isinstance(a, ast.Assign) and len(a.targets) == 1 and isinstance(a.targets[0], ast.Name)):
+                            continue
+                        t = a.targets[0].id
+                        if uses.get(t) != [1, 1] or any(isinstance(x, (ast.Yield, ast.YieldFrom, ast.Await, ast.NamedExpr)) for x in ast.walk(a.value)):
+                            continue
+                        if isinstance(b, ast.Return) and isinstance(b.value, ast.Name) and b.value.id == t:
+                            b.value = a.value
+                        elif isinstance(b, ast.Assign) and isinstance(b.value, ast.Name) and b.value.id == t and not any(isinstance(x, ast.Name) and x.id == t for tg in b.targets for x in ast.walk(tg)):
+                            b.value = a.value
+                        else:
+                            continue
+                        del blk[i]
+                        folds += 1
+                        done = True
+                        break
+                    if done:
+                        break
+                if done:
+                    break
+            if not done:
+                break
+    return folds
+
+
 class PyProgram:
     def __init__(self, repo: Path = REPO, dirs: list[str] | None = None):
         self.repo = repo
@@ -221,6 +269,7 @@ class PyProgram:
                 try:
                     text = p.read_text()
                     tree = ast.parse(text, filename=rel)
+                    canon_temps(tree)
                 except (SyntaxError, UnicodeDecodeError) as e:
                     raise AnalysisError(f"python file does not parse: {rel}: {e}")
                 dotted = rel[:-3].replace("/", ".")
@@ -747,6 +796,14 @@ class PyEval:
             if not isinstance(base, (dict, list)) and not getattr(base, "_sa_host", False):
                 raise NotConst("subscript store on non-container")
             base[idx] = value
+        elif isinstance(target, ast.Attribute):
+            base = self.eval(target.value)
+            if isinstance(base, Term):
+                base.kwargs[target.attr] = value
+            elif getattr(base, "_sa_host", False):
+                setattr(base, target.attr, value)
+            else:
+                raise NotConst(f"attribute store on {type(base).__name__}")
         else:
             raise NotConst(f"bind target {type(target).__name__}")
 
